@@ -40,6 +40,8 @@ type Sched struct {
 	Log   []Event
 	Steps []int // the pid schedule actually executed (one entry per granted step)
 	on    bool
+	cur   int
+	kind  string
 	// IsKey, when set, makes a schedule entry mean "one key step plus all following
 	// non-key steps of that process" (alignment with the key-step granularity of the
 	// TLA+ implementation model).  nil: every filesystem step is a schedule entry.
@@ -98,6 +100,25 @@ func (s *Sched) Call(pid int, op string, arg any, f func() string) {
 	v := f()
 	s.Log = append(s.Log, Event{P: pid, Ev: "res", Kind: op, Val: v})
 }
+
+// Park is a schedulable yield point of process pid that is not a filesystem step
+// (verification hook yields).  No-op before Arm.
+func (s *Sched) Park(pid int, kind string) {
+	if !s.on {
+		return
+	}
+	if p, ok := s.byID[pid]; ok {
+		s.park(p, &hookfs.Op{Kind: "yield:" + kind})
+	}
+}
+
+// SetKind / CurrentKind: a free-form tag the driver may attach to the running process
+// (e.g. "evict" while inside the pool's eviction path).
+func (s *Sched) SetKind(k string)    { s.kind = k }
+func (s *Sched) CurrentKind() string { return s.kind }
+
+// Current is the pid of the process that was granted the last step (the only one running).
+func (s *Sched) Current() int { return s.cur }
 
 func (s *Sched) enabled(p *proc) bool {
 	if p.finished || p.pending == nil {
@@ -184,6 +205,7 @@ func (s *Sched) Run(schedule []int, rnd *rand.Rand) error {
 				s.OnGrant(pick.id, op)
 			}
 			pick.pending = nil
+			s.cur = pick.id
 			pick.grant <- struct{}{}
 			wait(pick)
 		}
